@@ -101,7 +101,7 @@ theorem C20_run_never_stuck (v : Variant) (s : S) (h1 : s.pc ≠ .idle) (h2 : s.
 theorem C20_select_ready (v : Variant) (s : S) (hpc : s.pc = .select) (h : s.anyReady = true) :
     ∃ e, (fire v s (.pick e)).isSome = true := by
   simp only [S.anyReady, Bool.or_eq_true, decide_eq_true_eq] at h
-  rcases h with ((((((h | h) | h) | h) | h) | h) | h) | h
+  rcases h with (((((((h | h) | h) | h) | h) | h) | h) | h) | h
   · exact ⟨.watchOk, by simp [fire, hpc, pickEv, h]⟩
   · exact ⟨.watchErr, by simp [fire, hpc, pickEv, h]⟩
   · exact ⟨.hup, by simp [fire, hpc, pickEv, h]⟩
@@ -109,6 +109,7 @@ theorem C20_select_ready (v : Variant) (s : S) (hpc : s.pc = .select) (h : s.any
   · exact ⟨.async, by simp [fire, hpc, pickEv, h]⟩
   · exact ⟨.shutdown, by simp [fire, hpc, pickEv, h]⟩
   · exact ⟨.ctx, by simp [fire, hpc, pickEv, h]⟩
+  · exact ⟨.async, by simp [fire, hpc, pickEv, h]⟩
   · exact ⟨.async, by simp [fire, hpc, pickEv, h]⟩
 
 /-- non-vacuity of `C20_no_overlap` / `C20_stop_returns`: a reachable state at the creation point of generation 2 with
@@ -441,14 +442,22 @@ theorem C20_fatal_report_is_received (v : Variant) (s : S) (hpc : s.pc = .select
     ∃ s', fire v s (.pick .async) = some s' ∧ s'.stop = some .async ∧ s'.pc = .shut1 := by
   simp [fire, hpc, pickEv, leave, S.emit, h]
 
-/-- … and what is still pending when the service is shut down (reload, failed start, final shutdown) is abandoned: nothing
-of a retired service can stop the collector later, no goroutine is left behind -/
+/-- … and what is still pending when the service is shut down (reload, failed start, final shutdown) no longer belongs to a
+live service: `host.Done` is closed, every such hand-over goroutine is stale and gives up when it next runs (`giveUp`, always
+enabled for a stale one — no goroutine is left behind). Until it has run, its send can still be taken by a select: on the real
+code a window of a few scheduler quanta (seen once in ≈ 10^5 gated histories); then the reloaded collector stops, orderly, for
+the fatal error of a retired component. The gated harness waits for the stale goroutines to be gone before it goes on. -/
 theorem C20_fatal_reports_abandoned_at_service_shutdown (s s' : S) (ok : Bool) (g : Nat) (hsvc : s.svc = some g)
-    (hpc : s.pc = .reload2 ∨ s.pc = .shut3 ∨ (∃ rl, s.pc = .setupSd rl)) (h : stepRun s ok = some s') : s'.nFatal = 0 := by
+    (hpc : s.pc = .reload2 ∨ s.pc = .shut3 ∨ (∃ rl, s.pc = .setupSd rl)) (h : stepRun s ok = some s') :
+    s'.nFatal = 0 ∧ s'.nStale = s.nStale + s.nFatal ∧
+      (s'.nStale > 0 → ∀ v, ∃ s'', fire v s' .giveUp = some s'' ∧ s''.nStale + 1 = s'.nStale ∧ s''.core = s'.core) := by
+  have hg : ∀ (t : S), t.nStale > 0 → ∀ v, ∃ t', fire v t .giveUp = some t' ∧ t'.nStale + 1 = t.nStale ∧ t'.core = t.core := by
+    intro t ht v
+    refine ⟨{ t with nStale := t.nStale - 1 }, by simp [fire, ht], by simp; omega, rfl⟩
   rcases hpc with hpc | hpc | ⟨rl, hpc⟩
-  · cases ok <;> simp [stepRun, hpc, svcShutdown, hsvc, S.emit] at h <;> subst h <;> rfl
-  · simp [stepRun, hpc, svcShutdown, hsvc, S.emit] at h; subst h; rfl
-  · cases rl <;> simp [stepRun, hpc, svcShutdown, hsvc, S.emit, failSetup] at h <;> subst h <;> rfl
+  · cases ok <;> simp [stepRun, hpc, svcShutdown, hsvc, S.emit] at h <;> subst h <;> exact ⟨rfl, rfl, hg _⟩
+  · simp [stepRun, hpc, svcShutdown, hsvc, S.emit] at h; subst h; exact ⟨rfl, rfl, hg _⟩
+  · cases rl <;> simp [stepRun, hpc, svcShutdown, hsvc, S.emit, failSetup] at h <;> subst h <;> exact ⟨rfl, rfl, hg _⟩
 
 /-- The UNREPAIRED host (`host.AsyncErrorChannel <- event.Err()` inside `NotifyComponentStatusChange`, i.e. with the status
 reporter's mutex held): while a report is pending, every statement of the Run goroutine that reports component statuses —
@@ -465,7 +474,7 @@ shutdown proceeds to `service.Shutdown` -/
 def wedgeWitness : List Label :=
   [.begin, .step true, .step true, .step true, .step true, .post .term, .pick .term, .fatal, .step true, .step true]
 
-/-- **"Run returns" fails for the unrepaired host** (candidate finding, reproduced on the real collector, repaired): after
+/-- **"Run returns" fails for the unrepaired host** (about the host BEFORE `fix: do not block the status reporter …`, /repo cbd17a389; reproduced on the real collector then, repaired since): after
 `wedgeWitness` the run has been stopped by a termination signal, sits before `service.Shutdown` with a fatal report pending,
 the next statement of the Run goroutine is disabled whatever its outcome, and nothing any other goroutine does ever changes
 that — Run never returns, the state stays Closing. -/
@@ -510,8 +519,8 @@ theorem C20_run_returns_unrepaired_host_fails :
         | some r => have := (inv_reachable hr).retDone.1 (by simp [S.core, hx]); simp [S.core, a] at this
       exact ⟨a, hret, fun ok => by simp [stepRunUnrepairedHost, a, b, locksReporter]⟩
 
-/-- on the repaired host the same history goes on to Closed: the pending report is abandoned by `service.Shutdown` -/
-example : (run .fixed (wedgeWitness ++ [.step true, .step true])).map (fun s => (s.st, s.ret, s.nFatal, s.sdLog, s.provSd)) =
-    some (.closed, some true, 0, [1], 1) := by decide
+/-- on the repaired host the same history goes on to Closed: the pending hand-over is stale after `service.Shutdown` -/
+example : (run .fixed (wedgeWitness ++ [.step true, .step true])).map (fun s => (s.st, s.ret, s.nFatal, s.nStale, s.sdLog, s.provSd)) =
+    some (.closed, some true, 0, 1, [1], 1) := by rfl
 
 end OtelVerif.C20
